@@ -384,6 +384,17 @@ class _ETuple(enum.Enum):
 FORCE_SPELL = None      # None (random spelling) | 'typing' (typing.List / typing.Union) | 'builtin' (list[...] / X | Y)
 
 
+class _EComplex(enum.Enum):
+    """member values of one type that cannot be ordered among themselves"""
+    I = 1j
+    MI = -1j
+
+
+class _ELimit(enum.Enum):
+    NONE = ('limit', None)
+    ONE = ('limit', 1)
+
+
 def build(term, rng=None) -> Built:
     """Build the live typing object and the Coq term of a type term."""
     rng = rng or random
@@ -398,7 +409,7 @@ def build(term, rng=None) -> Built:
     if k == 'std':
         import datetime, decimal, fractions, pathlib, os
         from pane.types import Range, ValueOrList
-        py = {'enum_tuple': _ETuple, 'vol_int': ValueOrList[int], 'vol_tuple': ValueOrList[t.Tuple[int, int]], 'vol_list': ValueOrList[t.List[int]],
+        py = {'enum_tuple': _ETuple, 'enum_complex': _EComplex, 'enum_limit': _ELimit, 'vol_int': ValueOrList[int], 'vol_tuple': ValueOrList[t.Tuple[int, int]], 'vol_list': ValueOrList[t.List[int]],
               'vol_range': ValueOrList[Range[int]], 'range_int': Range[int], 'decimal': decimal.Decimal, 'fraction': fractions.Fraction, 'datetime': datetime.datetime, 'date': datetime.date,
               'time': datetime.time, 'path': pathlib.PurePosixPath, 'pathlike': os.PathLike, 'pattern': re.Pattern,
               'pattern_str': t.Pattern[str], 'pattern_bytes': re.Pattern[bytes]}[term[1]]
